@@ -209,7 +209,9 @@ let model_line out w line =
              Hashtbl.replace w.canvases id (cv_set (Hashtbl.find w.canvases id) (n_of_int x) (n_of_int y) e)
          | "resize" -> let a = num t in let b = num t in
              Hashtbl.replace w.canvases id (cv_resize (Hashtbl.find w.canvases id) (n_of_int a) (n_of_int b))
-         | "copy" -> Hashtbl.replace w.canvases id (Hashtbl.find w.canvases (num t))
+         | "copy" | "assign" -> Hashtbl.replace w.canvases id (Hashtbl.find w.canvases (num t))
+         | "move" -> let from = num t in let c = Hashtbl.find w.canvases from in
+             Hashtbl.remove w.canvases from; Hashtbl.replace w.canvases id c
          | "fill" -> let e = mk_elem t in let c = Hashtbl.find w.canvases id in
              Hashtbl.replace w.canvases id { c with grid = List.map (fun _ -> e) c.grid }
          | "iterset" -> let i = num t in let e = mk_elem t in let c = Hashtbl.find w.canvases id in
@@ -319,7 +321,8 @@ let model_line out w line =
          | "cstr" -> put (s_of_cstr (unhex (str t)))
          | "fill" -> let n = num t in put (s_fill (nat_of_int n) (mk_elem t))
          | "range" | "ilist" -> put (s_of_elems (mk_string t))
-         | "copy" -> put (get (num t))
+         | "copy" | "assign" -> put (get (num t))
+         | "move" -> let from = num t in let v = get from in Hashtbl.remove tstrings from; put v
          | "appendelem" -> put (s_append_elem (get id) (mk_elem t))
          | "append" -> put (s_append (get id) (get (num t)))
          | "plus" -> let a = num t in let b = num t in put (s_append (get a) (get b))
@@ -458,7 +461,9 @@ let oracle_mode () =
                Hashtbl.replace canvases id (cv_set (Hashtbl.find canvases id) (n_of_int x) (n_of_int y) e)
            | "resize" -> let a = num t in let b = num t in
                Hashtbl.replace canvases id (cv_resize (Hashtbl.find canvases id) (n_of_int a) (n_of_int b))
-           | "copy" -> Hashtbl.replace canvases id (Hashtbl.find canvases (num t))
+           | "copy" | "assign" -> Hashtbl.replace canvases id (Hashtbl.find canvases (num t))
+           | "move" -> let from = num t in let c = Hashtbl.find canvases from in
+               Hashtbl.remove canvases from; Hashtbl.replace canvases id c
            | "fill" -> let e = mk_elem t in let c = Hashtbl.find canvases id in
                Hashtbl.replace canvases id { c with grid = List.map (fun _ -> e) c.grid }
            | "iterset" -> let i = num t in let e = mk_elem t in let c = Hashtbl.find canvases id in
